@@ -10,7 +10,10 @@ def run(rep, tier, seed, replay):
     rep.cov["rule"] = ("policies: round robin / random / least connection through the re-exported constructor with scripted random draws over candidate lists of 0-6 hosts with 0-3 active "
                        "connections each; round robin under 64 concurrent callers for n in {1,2,3,5,7,16} (each host must get exactly k of n*k picks); host set: the C15 operation sequences "
                        "(the candidate list and the removal latch of the stored object after Remove through another object). non-trivial = non-empty candidate list; distinct = distinct case line")
-    rep.assumptions += ["the end-to-end TCP part (which backend receives each connection, closure on removal) is covered by the tcp relay harness when present",
+    rep.cov["rule"] += ("; end to end: the TCP processor (round robin / least connection / random) in front of 2-3 scripted backends that can refuse and come back, connections opened and "
+                        "kept, closed, hosts removed and added: after every step each host's ConnCount() (what least-connection reads) is compared with the model's count of relayed "
+                        "connections, removal must close the kept connections of that host, no connection may reach a removed host, round robin must cycle")
+    rep.assumptions += ["in the end-to-end run the random draws of least-connection/random are not scripted: only counts, membership and removal are compared there",
                         "atomic increments hand out distinct consecutive values (Go's sync/atomic)"]
     pr = vlib.prove(rep, PROP)
     vlib.prepare_runners()
@@ -35,5 +38,51 @@ def run(rep, tier, seed, replay):
         found = True
         rep.violation({"kind": "ops", "oracle": "candidates are the healthy members of the preferred tier; removing a host closes the stored object's removal latch",
                        "case": {"line": cases[i]}, "impl": impl[i], "expected": model[i], "disagreeing_cases": len(mm)})
+    # end to end: the TCP processor in front of scripted backends
+    res = differential(rep, PROP, "c06tcp", seed + 9, 40 if quick else 3000, tier)
+    cases, impl, model = res["cases"], res["impl"], res["models"]["c06tcp"]
+    mm = vlib.diff_lines(impl, model)
+    add_corr(rep, "TCP processor end to end: per-host connection counts after every step, connections closed on host removal vs the model", res, mm, len(set(cases)))
+    rep.cov["samples"] += [{"case": cases[i][:200], "impl": impl[i][:200]} for i in (0, len(cases) - 1) if i < len(cases)]
+    bad = []
+    for i, c in enumerate(cases):
+        hd, ops = c.split(" # ")
+        policy, nb = hd.split()[0], int(hd.split()[1])
+        removed, down, run_ = set(), set(), []
+        for op in ops.split():
+            if op[0] == "o":
+                r = op.split(":")[1]
+                if r.startswith("b"):
+                    b = int(r[1:])
+                    if b in removed:
+                        bad.append((i, "a connection reached backend %d after it was removed from the service" % b))
+                    run_.append(b)
+                    if policy == "rr" and not down and not removed and len(run_) >= nb and sorted(run_[-nb:]) != list(range(nb)):
+                        bad.append((i, "round robin: %d consecutive connections reached backends %s" % (nb, run_[-nb:])))
+                else:
+                    run_ = []
+            else:
+                run_ = []
+                x = int(op[1:]) if len(op) > 1 else 0
+                if op[0] == "r":
+                    removed.add(x)
+                elif op[0] == "a":
+                    removed.discard(x)
+                elif op[0] == "d":
+                    down.add(x)
+                elif op[0] == "u":
+                    down.discard(x)
+    rep.cov["correspondence"]["membership and round-robin fairness of the backends reached"] = {"cases": len(cases), "disagreements": len(bad)}
+    if (mm or bad) and not found:
+        found = True
+        if bad:
+            i, what = min(bad, key=lambda x: len(cases[x[0]]))
+        else:
+            i = min(mm, key=lambda j: len(cases[j]))
+            xs, ys = impl[i].split(" ; "), model[i].split(" ; ")
+            k = [j for j in range(max(len(xs), len(ys))) if (xs[j] if j < len(xs) else None) != (ys[j] if j < len(ys) else None)][0]
+            what = "after step %d: observed '%s', expected '%s' (backend reached / connections closed, then each host's connection count)" % (k, xs[k] if k < len(xs) else "", ys[k] if k < len(ys) else "")
+        rep.violation({"kind": "history", "oracle": what, "case": {"line": cases[i], "format": "policy backends # o[:outcome] open, c<i> close, d<b>/u<b> backend refuses/accepts, r<b>/a<b> remove/add host"},
+                       "impl": impl[i], "expected": model[i], "disagreeing_cases": len(mm) + len(bad)})
     if not pr["ok"] and not found:
         rep.violation({"kind": "broken-tie", "theorem": pr.get("broken"), "detail": pr.get("tail"), "searched": "no disagreement"}, found_input=False)
